@@ -136,6 +136,38 @@ impl Check for C13 {
                 gen::hazard_program(rng, gen::HazardOpts { len: 100, wild: true, run_into_io: rio, with_ei: true, irq: None })
             }
         };
+        let storm = rng.chance(1, 60);
+        let bytes = if storm {
+            // interrupt storm: the routine re-arms the stack pointer and re-enables interrupts without
+            // ever returning (or returns normally), the key is pressed hundreds of times
+            let mut p = gen::Prog::new();
+            p.byte(0x20).byte(0x02); // JR MAIN
+            p.byte(0x20).byte(0x00); // JR ISR (patched)
+            p.ldsp(gen::Src::Imm(0xEF));
+            p.mov(gen::Dst::Abs(0xF9), gen::Src::Imm(1));
+            p.ei();
+            let l = p.here();
+            p.un(0x44, 0);
+            p.jr_to(0, l);
+            let isr = p.here();
+            p.b[3] = isr.wrapping_sub(4);
+            if rng.chance(2, 3) {
+                p.ldsp(gen::Src::Imm(0xEF));
+                p.ei();
+                let l2 = p.here();
+                p.un(0x44, 1);
+                p.jr_to(0, l2);
+            } else {
+                p.un(0x44, 1);
+                if rng.bool() {
+                    p.ei();
+                }
+                p.reti();
+            }
+            p.b
+        } else {
+            bytes
+        };
         let stack = gen::pick_stack(rng);
         let limit = gen::pick_limit(rng, bytes.len());
         let regs = if rng.bool() {
@@ -147,9 +179,17 @@ impl Check for C13 {
         } else {
             None
         };
-        let max_edges = 200 + rng.below(2800) as u32;
+        let (regs, limit) = if storm { (None, Some(0xFF)) } else { (regs, limit) };
+        let max_edges = if storm {
+            12_000 + rng.below(12_000) as u32
+        } else if rng.chance(1, 300) {
+            // marathon: counters that only overflow after tens of thousands of edges
+            66_000 + rng.below(70_000) as u32
+        } else {
+            200 + rng.below(2800) as u32
+        };
         let dense = rng.chance(3, 10);
-        let nev = if dense { 10 + rng.below(190) } else { rng.below(4) };
+        let nev = if dense && !storm { 10 + rng.below(190) } else { rng.below(4) };
         let mut events: Vec<(u32, Stim)> = (0..nev).map(|_| (rng.below(max_edges as u64) as u32, random_stim(rng, true))).collect();
         if rng.chance(1, 12) {
             // hammer one I/O address through direct bus calls
@@ -157,6 +197,14 @@ impl Check for C13 {
             let t0 = rng.below(max_edges as u64) as u32;
             for k in 0..17 + rng.below(300) as u32 {
                 events.push((t0 + k / 4, if rng.chance(1, 6) { Stim::BusRead(a) } else { Stim::BusWrite(a, rng.u8()) }));
+            }
+        }
+        if storm {
+            let gap = 18 + rng.below(25) as u32;
+            let mut t = 60;
+            while t < max_edges {
+                events.push((t, Stim::KeyInt));
+                t += gap + rng.below(4) as u32;
             }
         }
         events.sort_by_key(|e| e.0);
